@@ -43,6 +43,7 @@ type Scenario struct {
 	NonceSum     int64    `json:"nonce_sum,omitempty"`      // ECDSA signing: force the signers' nonce shares k_i to sum to this small value
 	SilentNode   int      `json:"silent_node,omitempty"`    // party that goes silent (crash) ...
 	SilentAfter  int      `json:"silent_after,omitempty"`   // ... after this many scheduler steps
+	Concurrency  int      `json:"concurrency,omitempty"`    // > 0: tss.Parameters.SetConcurrency of every party
 	Schedule []pump.Step `json:"schedule,omitempty"` // recorded schedule (for replay)
 }
 
@@ -110,7 +111,7 @@ func copyEc(k eckg.LocalPartySaveData) eckg.LocalPartySaveData {
 
 // BuildConfig turns a scenario into a pump configuration (key material from the caches).
 func BuildConfig(sc Scenario) (cfg pump.Config, err error) {
-	cfg = pump.Config{Proto: sc.Proto, N: sc.N, T: sc.T, NewN: sc.NewN, NewT: sc.NewT, NoProofs: sc.NoProofs, Seed: sc.Seed, FullBytesLen: sc.FullBytesLen}
+	cfg = pump.Config{Proto: sc.Proto, N: sc.N, T: sc.T, NewN: sc.NewN, NewT: sc.NewT, NoProofs: sc.NoProofs, Seed: sc.Seed, FullBytesLen: sc.FullBytesLen, Concurrency: sc.Concurrency}
 	for _, k := range sc.PartyKeys {
 		v, ok := new(big.Int).SetString(k, 10)
 		if !ok {
@@ -408,6 +409,18 @@ func RunScenarios(scs []Scenario, workers int) ([]*RunRecord, error) {
 	return recs, nil
 }
 
+// message types of the six protocols in protocol order
+var protoTypes = map[pump.Proto][]string{
+	pump.EdKeygen:  {"KGRound1Message", "KGRound2Message1", "KGRound2Message2"},
+	pump.EcKeygen:  {"KGRound1Message", "KGRound2Message1", "KGRound2Message2", "KGRound3Message"},
+	pump.EdSigning: {"SignRound1Message", "SignRound2Message", "SignRound3Message"},
+	pump.EcSigning: {"SignRound1Message1", "SignRound1Message2", "SignRound2Message", "SignRound3Message", "SignRound4Message",
+		"SignRound5Message", "SignRound6Message", "SignRound7Message", "SignRound8Message", "SignRound9Message"},
+	pump.EdReshare: {"DGRound1Message", "DGRound2Message", "DGRound3Message1", "DGRound3Message2", "DGRound4Message"},
+	pump.EcReshare: {"DGRound1Message", "DGRound2Message1", "DGRound2Message2", "DGRound3Message1", "DGRound3Message2",
+		"DGRound4Message1", "DGRound4Message2"},
+}
+
 // ---------------------------------------------------------------- plans
 
 type sizeSpec struct {
@@ -461,6 +474,21 @@ func enginePlan(ctx *core.Ctx) []Scenario {
 		}
 		for i := 0; i < nrand; i++ {
 			strats = append(strats, "random")
+		}
+		// one message type of one sender held back as long as anything else can happen (it arrives rounds late,
+		// overtaken by the sender's own later traffic)
+		types := protoTypes[sz.proto]
+		scProbe := Scenario{Proto: sz.proto, N: sz.n, T: sz.t, KeyN: sz.keyN, NewN: sz.newN, NewT: sz.newT}
+		for ti, typ := range types {
+			snd := sendersOf(scProbe, typ)
+			expensive := sz.proto == pump.EcKeygen || sz.proto == pump.EcReshare
+			if !ctx.Thorough() && expensive && ti%len(types) != int(ctx.Seed+1)%len(types) && ti != 0 {
+				continue
+			}
+			strats = append(strats, fmt.Sprintf("holdtype:%s:%d", typ, snd[(ti+int(ctx.Seed))%len(snd)]))
+			if ctx.Thorough() && len(snd) > 1 {
+				strats = append(strats, fmt.Sprintf("holdtype:%s:%d", typ, snd[(ti+int(ctx.Seed)+1)%len(snd)]))
+			}
 		}
 		for i, st := range strats {
 			scs = append(scs, Scenario{Proto: sz.proto, N: sz.n, T: sz.t, KeyN: sz.keyN, NewN: sz.newN, NewT: sz.newT,
